@@ -927,3 +927,10 @@ package rsm
 //@ func GetV2PayloadSize [C14]
 //@ requires sz + 2 * blockSize < 9007199254740992 && blockSize > 0
 //@ ensures result == ((sz + blockSize - 1) / blockSize) * 4 + sz + 16
+
+// ---------------------------------------------------------------- C08: when an on-disk state machine may stream its state
+// A restarted on-disk state machine already contains everything up to the index its Open() reported. A snapshot
+// streamed from it is labelled with the applied index, so it may be streamed only once the applied index has caught up
+// with that index -- otherwise the receiver re-applies entries the streamed data already reflects.
+//@ func (s *StateMachine) ReadyToStream [C08]
+//@ ensures result == (!s.onDiskSM || s.lastApplied.index >= s.onDiskInitIndex)
